@@ -1,7 +1,7 @@
 """C02 — handlers can only return documented responses, written as documented."""
 from . import respfam
 
-THEOREMS = []
+THEOREMS = ["Goag.Resp.implementers_eq_documented", "Goag.Resp.root_mem"]
 
 
 def check(ctx):
